@@ -22,7 +22,7 @@ RULE = ("trees and lone files x output directory {absolute fresh, relative to th
         "excluded), each exactly once and followed by one empty line, pages of one directory in sorted name order, nothing "
         "else; a sample is re-run as a real subprocess for true stdout. Non-trivial: output directory pre-populated or "
         "nested/parent, and a tree with >=2 directories; distinct by SHA-1 of the case")
-RULE_MORE = 'snapshots include modification times; the same command line run twice into one output directory; a symbolic link in the tree to a CMake file outside it. Later: auto-exclusion off; unrelated files extending generated names; a page > 64 KiB; output path with decomposed characters; (round 10) an unrelated regular file named like an input subdirectory; the API called three times for stdout.'
+RULE_MORE = 'snapshots include modification times; the same command line run twice into one output directory; a symbolic link in the tree to a CMake file outside it. Later: auto-exclusion off; unrelated files extending generated names; a page > 64 KiB; output path with decomposed characters; (round 10) an unrelated regular file named like an input subdirectory; the API called three times for stdout; (round 11) permission bits of pre-existing files in the snapshots (some are 0444 / 0600); `output.relative_to_config: true` in the settings file.'
 ASSUMPTIONS = ["the in-process runner captures sys.stdout/sys.stderr including logging handlers bound at configuration time",
                "creating missing ancestors of the output directory is part of creating the output directory"]
 BUDGET = {"quick": {"shards": 8, "examples": 80}, "thorough": {"shards": 16, "examples": 1200}}
@@ -46,6 +46,7 @@ def strategy(tier):
         # the same command line already ran once into the same output directory
         "rerun": st.sampled_from([False, False, True]),
         "blocker": st.sampled_from([False, True]),
+        "rtc": st.sampled_from([False, True, False]),
         "api_repeat": st.sampled_from([False, False, True]),
         # a symbolic link in the tree to a CMake file that lives elsewhere
         "filelink": st.sampled_from([None, None, "top", "sub"]),
@@ -156,9 +157,15 @@ def evaluate(case):
             os.makedirs(os.path.dirname(p), exist_ok=True)
             with open(p, "wb") as f:
                 f.write(data)
+            if rel.endswith(".rst") and len(rel) % 2 == 0:
+                os.chmod(p, 0o444 if len(rel) % 4 == 0 else 0o600)      # the user's own permission bits are part of "untouched"
         cfg = sb.path("settings.yaml")
         settings = {"input": {f"include_undocumented_{k}": False for k in case["flags_off"]},
                     "rst": {"file_extensions_in_titles": case["ext"]}}
+        if case.get("rtc"):
+            # only says how a *configured* directory is resolved; without a directory there is still no directory
+            settings["output"] = {"relative_to_config": True}
+            res.labels.append("relative_to_config-without-configured-directory")
         auto_off = bool(case.get("auto_off")) and not outloc.startswith("nested") and outloc != "parent"
         settings["input"]["auto_exclude_directories_without_cmake"] = not auto_off
         if auto_off:
